@@ -6,6 +6,8 @@
 //   rt    <ty> <value tokens>   -> save, mode(load_from_archive), load : "ok <value tokens> eof=<0|1>"
 //   ssave/sload/srt <ty> ...    -> the same through serialization_traits<T> (only serializable classes, B.* / X.*)
 //   ops   <hex> <op>...         -> raw archive primitives: n (next_chunk_size) r<len> (read_chunk) s (read_chunk_as_string) e (eof)
+//                                  z (reset) m (mode(load_from_archive))
+//   load2 <ty> <hex1> <hex2>    -> one archive object: str(hex1), load (outcome ignored), str(hex2), load -> as `load`
 //   crt / zrt <ty> <value>      -> cache_interface / session_interface store_data then fetch_data (serializable classes): "ok <value tokens>"
 //   wr    <hex> <hex>...        -> write_chunk of each word; hex of the archive
 //   load+ rt+ sload+ srt+       -> the same, but the object loaded into is pre-populated with junk (load must replace it)
@@ -286,6 +288,7 @@ struct Ops {
 	std::string (*srt)(Tok &);
 	std::string (*cache)(Tok &);
 	std::string (*session)(Tok &);
+	std::string (*load2)(std::string const &,std::string const &);
 };
 
 template<typename T> std::string do_save(Tok &t)
@@ -298,6 +301,28 @@ template<typename T> std::string do_save(Tok &t)
 template<typename T> std::string do_load(std::string const &bytes)
 {
 	archive a;
+	a.str(bytes);
+	Poison guard(a.buffer_);
+	std::string out;
+	try {
+		T v=T();
+		if(prefill) Junk::j(v);
+		cppcms::archive_traits<T>::load(v,a);
+		out="ok"; dump(v,out);
+		out+=" @"+std::to_string(a.ptr_);
+	}
+	catch(cppcms::archive_error const &e) { out=err_kind(e.what()); }
+	return out;
+}
+// the same archive object used twice: archive::str() must restart at offset 0 whatever happened before
+template<typename T> std::string do_load2(std::string const &first,std::string const &bytes)
+{
+	archive a;
+	a.str(first);
+	{
+		Poison guard(a.buffer_);
+		try { T v=T(); cppcms::archive_traits<T>::load(v,a); } catch(cppcms::archive_error const &) {}
+	}
 	a.str(bytes);
 	Poison guard(a.buffer_);
 	std::string out;
@@ -423,12 +448,12 @@ static std::map<std::string,Ops> registry;
 
 template<typename T> void reg()
 {
-	Ops o={ do_save<T>, do_load<T>, do_rt<T>, 0, 0, 0, 0, 0 };
+	Ops o={ do_save<T>, do_load<T>, do_rt<T>, 0, 0, 0, 0, 0, do_load2<T> };
 	registry[TN<T>::name()]=o;
 }
 template<typename T> void regs()
 {
-	Ops o={ do_save<T>, do_load<T>, do_rt<T>, do_ssave<T>, do_sload<T>, do_srt<T>, do_cache<T>, do_session<T> };
+	Ops o={ do_save<T>, do_load<T>, do_rt<T>, do_ssave<T>, do_sload<T>, do_srt<T>, do_cache<T>, do_session<T>, do_load2<T> };
 	registry[TN<T>::name()]=o;
 }
 
@@ -482,6 +507,8 @@ static std::string run(std::vector<std::string> const &w)
 				std::string r;
 				if(o=="n") r="n="+std::to_string(a.next_chunk_size());
 				else if(o=="e") r=a.eof() ? "e=1" : "e=0";
+				else if(o=="z") { a.reset(); r="z"; }
+				else if(o=="m") { a.mode(archive::load_from_archive); r="m"; }
 				else if(o=="s") { std::string s=a.read_chunk_as_string(); r="s="+hx(s.data(),s.size()); }
 				else if(o[0]=='r') {
 					if(o.size()<2 || o[1]<'0' || o[1]>'9') return "bad-op";
@@ -523,6 +550,12 @@ static std::string run(std::vector<std::string> const &w)
 	if(o2=="srt") return o.srt ? o.srt(t) : "bad-op";
 	if(o2=="crt") return o.cache ? o.cache(t) : "bad-op";        // cache_interface::store_data / fetch_data
 	if(o2=="zrt") return o.session ? o.session(t) : "bad-op";    // session_interface::store_data / fetch_data
+	if(o2=="load2") {
+		if(w.size()!=4) return "bad-op";
+		std::string first,bytes;
+		if(!vh::unhex(w[2],first) || !vh::unhex(w[3],bytes)) return "bad-op";
+		return o.load2(first,bytes);
+	}
 	if(o2=="load" || o2=="sload") {
 		if(w.size()!=3) return "bad-op";
 		std::string bytes;
